@@ -2,6 +2,7 @@
    Only property theorems and their assumptions. *)
 From Coq Require Import List NArith Bool.
 From Quill Require Import Queue.BQDefs Backend.BEDefs Backend.BEInv Backend.BEDispatch.
+From Quill Require Queue.UQDefs.
 Import ListNotations.
 Local Open Scope N_scope.
 
@@ -12,11 +13,16 @@ Local Open Scope N_scope.
    the soft/hard limit exits of the read loop, or the removal of an exited thread's context (the
    model destroys the context's content on removal, so a premature removal would break this). *)
 Theorem C03_conservation : forall K s0 ops,
-  (forall t, th s0 t = thr0 /\ issued s0 t = [] /\ delivered s0 t = []) -> pos_ops ops ->
+  (forall t, fresh_thr (th s0 t) /\ issued s0 t = [] /\ delivered s0 t = []) -> pos_ops ops ->
   let s := run K s0 ops in
   forall t, issued s t = delivered s t ++ map eid (tbuf (th s t)) ++ map eid (qev (th s t)).
 Proof. exact be_conservation. Qed.
 Print Assumptions C03_conservation.
+
+(* the premise covers bounded frontends and unbounded frontends with any initial node (fresh_thr): *)
+Example C03_fresh_thread_contexts :
+  fresh_thr thr0 /\ fresh_thr (set_thr_uqs thr0 (Some (Queue.UQDefs.uq_init 256))).
+Proof. split; [exists None|eexists]; reflexivity. Qed.
 
 (* the sink loop: the observations appended by dispatching one statement are exactly one write per
    sink in [written], in the logger's sink order *)
